@@ -196,6 +196,20 @@ pub broadcast axiom fn axiom_stringref_eq_strref_obeys<'a, 'b>()
     ensures #[trigger] <&'a String as vstd::std_specs::cmp::PartialEqSpec<&'b str>>::obeys_eq_spec();
 pub broadcast axiom fn axiom_stringref_eq_strref<'a, 'b>(a: &'a String, b: &'b str)
     ensures #[trigger] <&'a String as vstd::std_specs::cmp::PartialEqSpec<&'b str>>::eq_spec(&a, &b) == (a@ == b@);
-pub broadcast group group_str_eq { axiom_str_eq_string_obeys, axiom_str_eq_string, axiom_stringref_eq_strref_obeys, axiom_stringref_eq_strref }
+/// trusted: the other std impls that compare a string slice with a `String` (method forms `a.eq(&b)` resolve to these): the character sequences
+pub broadcast axiom fn axiom_strv_eq_string_obeys()
+    ensures #[trigger] <str as vstd::std_specs::cmp::PartialEqSpec<String>>::obeys_eq_spec();
+pub broadcast axiom fn axiom_strv_eq_string(a: &str, b: &String)
+    ensures #[trigger] <str as vstd::std_specs::cmp::PartialEqSpec<String>>::eq_spec(a, b) == (a@ == b@);
+pub broadcast axiom fn axiom_string_eq_strv_obeys()
+    ensures #[trigger] <String as vstd::std_specs::cmp::PartialEqSpec<str>>::obeys_eq_spec();
+pub broadcast axiom fn axiom_string_eq_strv(a: &String, b: &str)
+    ensures #[trigger] <String as vstd::std_specs::cmp::PartialEqSpec<str>>::eq_spec(a, b) == (a@ == b@);
+pub broadcast axiom fn axiom_string_eq_strref_obeys<'b>()
+    ensures #[trigger] <String as vstd::std_specs::cmp::PartialEqSpec<&'b str>>::obeys_eq_spec();
+pub broadcast axiom fn axiom_string_eq_strref<'b>(a: &String, b: &&'b str)
+    ensures #[trigger] <String as vstd::std_specs::cmp::PartialEqSpec<&'b str>>::eq_spec(a, b) == (a@ == b@);
+pub broadcast group group_str_eq { axiom_str_eq_string_obeys, axiom_str_eq_string, axiom_stringref_eq_strref_obeys, axiom_stringref_eq_strref,
+    axiom_strv_eq_string_obeys, axiom_strv_eq_string, axiom_string_eq_strv_obeys, axiom_string_eq_strv, axiom_string_eq_strref_obeys, axiom_string_eq_strref }
 } // verus!
 } // mod vx_str
